@@ -1021,6 +1021,125 @@ def lockset(fn, entry=frozenset(), extra_lock=None, extra_unlock=None):
 
 
 # --------------------------------------------------------------------------
+# interval sets for one local variable (A12)
+
+def _iv_norm(iv):
+    iv = sorted((lo, hi) for (lo, hi) in iv if lo <= hi)
+    out = []
+    for lo, hi in iv:
+        if out and lo <= out[-1][1] + 1:
+            out[-1] = (out[-1][0], max(out[-1][1], hi))
+        else:
+            out.append((lo, hi))
+    return tuple(out)
+
+
+def _iv_meet(iv, lo, hi):
+    return _iv_norm([(max(a, lo), min(b, hi)) for (a, b) in iv])
+
+
+def _iv_minus_point(iv, c):
+    out = []
+    for (a, b) in iv:
+        if a <= c <= b:
+            out += [(a, c - 1), (c + 1, b)]
+        else:
+            out.append((a, b))
+    return _iv_norm(out)
+
+
+def var_ranges(fn, var, bits, signed, rhs_range=None):
+    """forward interval-set analysis of one local variable `var` of the given
+    integer type.  Assignments from constants give points; from anything else
+    rhs_range(expr) (default: the full type range).  Branch atoms `var op K`
+    refine.  Returns {(blk, idx): intervals just before that event} and
+    {blk: intervals at block entry}."""
+    lo_t = -(1 << (bits - 1)) if signed else 0
+    hi_t = (1 << (bits - 1)) - 1 if signed else (1 << bits) - 1
+    full = ((lo_t, hi_t),)
+
+    def wrap(c):
+        if c is None:
+            return None
+        if signed:
+            c &= (1 << bits) - 1
+            return c - (1 << bits) if c >> (bits - 1) else c
+        return c & ((1 << bits) - 1)
+
+    def is_var(e):
+        e = unwrap(e)
+        return isinstance(e, dict) and e.get('k') == 'var' and e['n'] == var
+
+    def assign(rhs):
+        c = cval(unwrap(rhs)) if rhs is not None else None
+        if c is not None:
+            c = wrap(c)
+            return ((c, c),)
+        if rhs_range is not None and rhs is not None:
+            r = rhs_range(rhs)
+            if r is not None:
+                return _iv_norm(r)
+        return full
+
+    def refine(iv, a):
+        # a: Atom with var on one side, constant on the other
+        if is_var(a.l) and a.rc is not None:
+            op, c = a.op, wrap(a.rc)
+        elif is_var(a.r) and a.lc is not None:
+            op, c = SWAP[a.op], wrap(a.lc)
+        else:
+            return iv
+        if op == '==':
+            return _iv_meet(iv, c, c)
+        if op == '!=':
+            return _iv_minus_point(iv, c)
+        if op == '<':
+            return _iv_meet(iv, lo_t, c - 1)
+        if op == '<=':
+            return _iv_meet(iv, lo_t, c)
+        if op == '>':
+            return _iv_meet(iv, c + 1, hi_t)
+        if op == '>=':
+            return _iv_meet(iv, c, hi_t)
+        return iv
+
+    IN = {fn.entry: full}
+    at = {}
+    work = [fn.entry]
+    rounds = 0
+    while work:
+        rounds += 1
+        if rounds > 5000:
+            raise AnalysisBroken('var_ranges: no fixpoint in %s' % fn.name)
+        b = work.pop()
+        cur = IN[b]
+        for ev in fn.blocks[b].events:
+            at[(b, ev.idx)] = cur
+            if ev.kind == 'STORE' and is_var(ev.lhs):
+                cur = assign(ev.rhs) if ev.d['op'] == '=' else full
+            elif ev.kind == 'DECL' and ev.d['var'] == var:
+                cur = assign(ev.d.get('init')) if 'init' in ev.d else full
+            elif ev.kind == 'CALL':
+                for arg in ev.args:
+                    au = unwrap(arg)
+                    if au.get('k') == 'addr' and is_var(au['e']):
+                        cur = full
+        blk = fn.blocks[b]
+        for (t, lab) in blk.succs:
+            out = cur
+            if blk.cond is not None and lab in (True, False):
+                for a in atoms_of(blk.cond, lab):
+                    out = refine(out, a)
+            if not out:
+                continue      # infeasible edge
+            new = out if t not in IN else _iv_norm(list(IN[t]) + list(out))
+            if t not in IN or new != IN[t]:
+                IN[t] = new
+                work.append(t)
+    return at, IN
+
+
+# --------------------------------------------------------------------------
 # finite abstract evaluation (A3)
 
 TOP = object()
